@@ -198,6 +198,24 @@ class InlineArms(PassSpec):
             node = gx.Identifier(nm)
             run.oblige(f"nonsilent.{nm}.kept", inline_silent_rules(node, rules) is node)
         run.oblige("other.kept", inline_silent_rules(body, rules) is body)
+        # WHITESPACE and COMMENT are atomic by name (Rule.parse): their body alone is not, so a reference to them stays
+        for nm in ("WHITESPACE", "COMMENT"):
+            trules = {nm: GrammarRule(nm, body, 2)}
+            node = gx.Identifier(nm)
+            run.oblige(f"silent.{nm}.kept", inline_silent_rules(node, trules) is node, note="an explicitly referenced silent trivia rule must keep its implicit atomicity")
+        # inlining must not change what an enclosing atomic rule shows: Rule.parse decides the visibility of inner pairs by the
+        # SYNTAX of the atomic rule's body (finding F8), so replacing `b` by its body `c` (a $ rule) changes the tree
+        from pest.grammar.optimizer import Optimizer
+
+        from replay.refpeg import tagged_tree_of
+
+        g = 'a = @{ b }\nb = _{ c }\nc = ${ "x" ~ d }\nd = { "y" }'
+        before = tagged_tree_of(Parser.from_grammar(g, optimizer=None).parse("a", "xy"))
+        try:
+            after = tagged_tree_of(Parser.from_grammar(g, optimizer=Optimizer([("inline silent", inline_silent_rules)])).parse("a", "xy"))
+        except Exception:  # noqa: BLE001
+            after = tagged_tree_of(Parser.from_grammar(g).parse("a", "xy"))
+        run.oblige("silent.atomic_visibility_preserved", before == after, note=f"a = @{{ b }}, b = _{{ c }}, c = ${{ \"x\" ~ d }} on 'xy': unoptimized {before} optimized {after}")
         for name, rule in Parser.BUILTIN.items():
             out = inline_builtin(rule, {})
             if name == "EOI":
